@@ -635,7 +635,7 @@ def finish(report, tier, t0, level_text, rule_text, assumptions, program=None):
             viol.append(f)
     if report.floor_failures and not viol:
         raise AnalysisBroken("; ".join(report.floor_failures))
-    evdir = os.path.join(VERIF, "evidence")
+    evdir = os.environ.get("VERIF_EVIDENCE_DIR") or os.path.join(VERIF, "evidence")      # self-test runs write elsewhere
     os.makedirs(os.path.join(evdir, "replay"), exist_ok=True)
     # remove stale replay files of this property
     for fn in os.listdir(os.path.join(evdir, "replay")):
@@ -672,6 +672,7 @@ def finish(report, tier, t0, level_text, rule_text, assumptions, program=None):
             "known_findings_matched": ["%s %s %s" % f.key() for f, _ in knownhits],
             "accepted_exceptions": report.exceptions,
             "notes": report.notes,
+            "self_test": getattr(report, "selftest", None) or "quick tier: not run (thorough tier applies every seeded change and reverted fix of this property to a scratch copy and requires a violation)",
             "exhaustive": True,
         },
         "assumptions": assumptions,
